@@ -80,23 +80,34 @@ def gen_case(rng, idx):
         n = rng.choice([25000, 40000])
         return {'name': f'c20.case{idx}', 'levels': [20] * n, 'size': 10, 'threshold': 10,
                 'end': rng.choice(['return', 'raise', 'exit3']), 'handler_delay': 0.0001, 'pause_every': 0, 'variant': 'direct'}
+    if idx == 1 or rng.random() < 0.05:
+        # the parent has logging.disable(level) in force: run alone, after the concurrent cases (the switch is process-wide)
+        n = rng.choice([4, 30, 100])
+        return {'name': f'c20.case{idx}', 'levels': [rng.choice([5, 10, 20, 30, 40]) for _ in range(n)], 'size': 10,
+                'threshold': rng.choice([1, 10, 20]), 'end': rng.choice(['return', 'raise']), 'handler_delay': 0, 'pause_every': 0,
+                'variant': 'direct', 'disable': rng.choice([10, 20, 30])}
     n = rng.choice([0, 1, 2, 4, 8, 30, 100, 300, 1000, 3000])
     size = rng.choice([10, 100, 2000])
     if n * size > 1_500_000:
         size = 100
-    levels = [rng.choice([10, 20, 20, 30]) for _ in range(n)]
+    levels = [rng.choice([5, 10, 20, 20, 30]) for _ in range(n)]
     variant = rng.choice(['direct'] * 8 + ['pool', 'servlet'])
     if variant != 'direct' and n > 300:
         n = 300
         levels = levels[:300]
-    return {'name': f'c20.case{idx}', 'levels': levels, 'size': size, 'threshold': rng.choice([10, 10, 20, 30]),
+    return {'name': f'c20.case{idx}', 'levels': levels, 'size': size, 'threshold': rng.choice([1, 10, 10, 20, 30]),
             'end': rng.choice(['return', 'return', 'raise', 'exit0', 'exit3', 'exitstr']),
             'handler_delay': rng.choice([0, 0, 0.0005]) if n <= 300 else 0,
             'pause_every': rng.choice([0, 0, 7]), 'variant': variant}
 
 
+def eff_threshold(c):
+    # logging.disable(d) in the parent silences every record of level <= d, whatever the logger's own level
+    return max(c['threshold'], c.get('disable', 0) + 1)
+
+
 def expected(c):
-    return [i for i, lv in enumerate(c['levels']) if lv >= c['threshold']]
+    return [i for i, lv in enumerate(c['levels']) if lv >= eff_threshold(c)]
 
 
 def run_direct(c):
@@ -200,7 +211,7 @@ def oracle(c, o):
                 f'expected records were handled')
     if o['handled'] != exp:
         missing = [i for i in exp if i not in o['handled']]
-        return (f'the parent handled {len(o["handled"])} records, expected {len(exp)} of the {n} emitted (threshold {c["threshold"]}); '
+        return (f'the parent handled {len(o["handled"])} records, expected {len(exp)} of the {n} emitted (threshold {c["threshold"]}, logging.disable {c.get("disable", 0)}); '
                 f'first missing: {missing[:5]}; in order: {o["handled"] == sorted(o["handled"])}; '
                 f'duplicates: {len(o["handled"]) != len(set(o["handled"]))}')
     if c['variant'] == 'direct':
@@ -249,6 +260,8 @@ def impl_main(argv):
             if i >= len(cases):
                 return
             c = cases[i]
+            if c.get('disable'):
+                continue
             try:
                 o = {'direct': run_direct, 'pool': run_pool, 'servlet': run_servlet}[c['variant']](c)
             except BaseException as e:  # noqa
@@ -261,6 +274,17 @@ def impl_main(argv):
         t.start()
     for t in ths:
         t.join()
+    for i, c in enumerate(cases):
+        if c.get('disable'):
+            logging.disable(c['disable'])
+            try:
+                o = run_direct(c)
+            except BaseException as e:  # noqa
+                o = {'crash': repr(e)[:300], 'join': ['crash'], 'exitcode': None, 'reads': None,
+                     'handled': list(HANDLED.get(c['name'], [])), 'elapsed': 0}
+            finally:
+                logging.disable(logging.NOTSET)
+            results[i] = {'cfg': c, 'obs': o, 'oracle': oracle(c, o), 'strategy': 'direct+disable', 'verdict': 'ok'}
     json.dump(results, open(outp, 'w'))
     sys.stdout.flush()
     os._exit(0)
@@ -273,7 +297,7 @@ def coq_case(r):
         return '([], 0, [(-1)%Z], [], 1)'        # flood cases are judged by the oracle only (unary numerals in the model)
     fin = 1 if (o['join'] != ['timeout'] and o['exitcode'] is not None and not o.get('crash')) else 0
     reads = o['reads'] if o['reads'] is not None else list(range(len(c['levels']))) + [-1]     # pool / servlet: reads not attributed
-    return f"({clist(c['levels'], cnat)}, {cnat(c['threshold'])}, {clist(reads, cz)}, {clist(o['handled'], cnat)}, {cnat(fin)})"
+    return f"({clist(c['levels'], cnat)}, {cnat(eff_threshold(c))}, {clist(reads, cz)}, {clist(o['handled'], cnat)}, {cnat(fin)})"
 
 
 TRUSTED = [
@@ -317,8 +341,8 @@ def check(tier, seed, replay=None):
 
     return core.generic_check(
         PROP, tier, seed, [part], TRUSTED, ASSUME,
-        rule='one flood case per run (25000-40000 short records against a slow parent handler) and random cases: 0-3000 records of 10/100/2000 bytes (up to 1.5 MB, far beyond the 64 kB pipe buffer) with random levels, parent '
-             'threshold DEBUG/INFO/WARNING, target ending by return / raise / sys.exit(0) / sys.exit(3) / sys.exit(str), the last record '
+        rule='one flood case per run (25000-40000 short records against a slow parent handler) and random cases: 0-3000 records of 10/100/2000 bytes (up to 1.5 MB, far beyond the 64 kB pipe buffer) with random levels (a custom level 5 below DEBUG included), parent '
+             'threshold 1/DEBUG/INFO/WARNING, a few cases run alone with logging.disable(level) in force in the parent, target ending by return / raise / sys.exit(0) / sys.exit(3) / sys.exit(str), the last record '
              'emitted immediately before the end, optional slow parent handler (pipe backs up) and pauses in the child; mostly a direct '
              'Process, some through a one-worker ProcessPoolExecutor and some through a ProcessServlet worker under a Server; 6 cases run '
              'concurrently. non-trivial = at least 30 records; distinct = distinct case',
